@@ -13,6 +13,8 @@ import EinoV.Model.C10
 import EinoV.Model.C10Runs
 import EinoV.Proofs.C10
 import EinoV.Proofs.C10Runs
+import EinoV.Model.C10Share
+import EinoV.Proofs.C10Share
 import EinoV.Gen.FactsC10
 import EinoV.Expected.C10
 
@@ -42,7 +44,8 @@ theorem facts_match :
     FactsC10.injectionGuarded = Expected.C10.injectionGuarded ∧
     FactsC10.toolCallOwnRunInfo = Expected.C10.toolCallOwnRunInfo ∧
     FactsC10.wrapperOnErrorAlways = Expected.C10.wrapperOnErrorAlways ∧
-    FactsC10.toolRunInfoUnconditional = Expected.C10.toolRunInfoUnconditional := by
+    FactsC10.toolRunInfoUnconditional = Expected.C10.toolRunInfoUnconditional ∧
+    FactsC10.lambdaNodeOwnsRunnable = Expected.C10.lambdaNodeOwnsRunnable := by
   decide
 
 /-- `AppendHandlers` copies the inherited slice before appending (source fact) -/
@@ -339,6 +342,49 @@ theorem tool_call_run_info_own (c : Case) (evs : List Ev) (k : Nat) (u : UnitSpe
   rw [(no_cross_node _ evs e he).2.1, hunit]
   exact unitInfo_progOf fact_tool_run_info_unconditional c k u hu
 
+/-! ## run info of a Lambda node whose Lambda value is used under several node keys -/
+
+/-- `toLambdaNode` gives every graph node a runnable of its own (source fact) -/
+theorem fact_lambda_node_owns_runnable : FactsC10.lambdaNodeOwnsRunnable = true := by decide
+
+/-- **lambda_node_run_info_own.** One `*compose.Lambda` value may be added under any number of
+    node keys, to any number of graphs / chains / workflows, with or without input / output
+    keys (`ns`: all declarations, `d.lam < ls.length`: each names a Lambda of the pool), and the
+    graphs may be compiled in any order, any number of times, their nodes in any (map
+    iteration) order (`order`: any list of node indices).  The RunInfo a compiled node's
+    callbacks carry at run time is the one of the node's OWN declaration: its `WithNodeName`,
+    and the type and component of the Lambda it names — "with that unit's run info". -/
+theorem lambda_node_run_info_own (ls : List LamD) (ns : List NodeD) (hwf : ∀ d ∈ ns, d.lam < ls.length)
+    (order : List Nat) (i : Nat) (d : NodeD) (hd : ns[i]? = some d) (hi : i ∈ order) :
+    runInfo ls (compileAll FactsC10.lambdaNodeOwnsRunnable ls.length ns order) i = some (declInfo ls d) := by
+  rw [fact_lambda_node_owns_runnable]
+  obtain ⟨hn, hl⟩ := own_name_of_owns hwf order i d hd hi
+  simp [runInfo, hn, hl, declInfo]
+
+/-- **lambda_node_run_info_independent.** The run info of a node is a function of its own
+    declaration only: it is the same in any two cases in which the node is declared alike,
+    whatever other nodes share its Lambda value, whatever was compiled before or after. -/
+theorem lambda_node_run_info_independent (ls : List LamD) (ns ns' : List NodeD)
+    (hwf : ∀ d ∈ ns, d.lam < ls.length) (hwf' : ∀ d ∈ ns', d.lam < ls.length)
+    (order order' : List Nat) (i i' : Nat) (d : NodeD)
+    (hd : ns[i]? = some d) (hd' : ns'[i']? = some d) (hi : i ∈ order) (hi' : i' ∈ order') :
+    runInfo ls (compileAll FactsC10.lambdaNodeOwnsRunnable ls.length ns order) i =
+    runInfo ls (compileAll FactsC10.lambdaNodeOwnsRunnable ls.length ns' order') i' := by
+  rw [lambda_node_run_info_own ls ns hwf order i d hd hi, lambda_node_run_info_own ls ns' hwf' order' i' d hd' hi']
+
+/-- **lambda_node_callbacks_carry_declared_info.** In a run of a graph whose `k`-th unit is
+    the execution of Lambda node `i`, every callback that unit delivers — in every
+    interleaving — carries the run info of node `i`'s own declaration. -/
+theorem lambda_node_callbacks_carry_declared_info (ls : List LamD) (ns : List NodeD)
+    (hwf : ∀ d ∈ ns, d.lam < ls.length) (order : List Nat) (i : Nat) (d : NodeD)
+    (hd : ns[i]? = some d) (hi : i ∈ order)
+    (c : Case) (evs : List Ev) (k : Nat) (su : ShareUnit) (hsu : su.node = some i)
+    (hu : c.units[k]? = some (shareUnit ls ns (compileAll FactsC10.lambdaNodeOwnsRunnable ls.length ns order) su))
+    (e : LogEv) (he : e ∈ (run genFacts (progOf genCF c) evs).log) (hunit : e.unit = k + shiftOf c) :
+    e.info = declInfo ls d := by
+  rw [tool_call_run_info_own c evs k _ hu e he hunit]
+  simp [shareUnit, hsu, lambda_node_run_info_own ls ns hwf order i d hd hi]
+
 /-! ## stream payload copies -/
 
 /-- each handler gets its own copy and the flow continues with yet another one -/
@@ -463,6 +509,29 @@ example : (runUnits exShape true).map (fun u => (u.info, kindProg ⟨true, true,
 example : (runUnits exShape false).map (fun u => (u.info, kindProg ⟨true, true, true, true⟩ u.kind)) =
     [("G||Graph", [.start, .end_]), ("n:A|Li|Lambda", [.start, .end_]), ("n:T||ToolsNode", [.start, .end_]),
      ("t1|Tt1|Tool", [.start, .end_]), ("t2|Tt2|Tool", [.start, .endStream]), ("n:join|Li|Lambda", [.start, .end_])] := by decide
+
+/-- **One runnable shared by all nodes of a Lambda value** (`lambdaNodeOwnsRunnable = false`,
+    the code before the fix): the same Lambda under the keys `a` (name "A") and `b` (name "B"),
+    no input / output keys.  Whichever node is compiled last wins: both nodes report its name. -/
+def shareLs : List LamD := [⟨.i, false, "T"⟩]
+def shareNs : List NodeD := [⟨0, "A", false⟩, ⟨0, "B", false⟩]
+
+theorem lambda_node_reports_foreign_name_when_shared :
+    runInfo shareLs (compileAll false 1 shareNs [0, 1]) 0 = some "B|T|Lambda" ∧
+    runInfo shareLs (compileAll false 1 shareNs [1, 0]) 1 = some "A|T|Lambda" ∧
+    declInfo shareLs ⟨0, "A", false⟩ = "A|T|Lambda" := by
+  decide
+
+/-- with the facts of the source both orders give every node its own name; a node with an
+    input / output key reports its own name even over a shared runnable (the wrapper is a copy
+    taken at the node's own compile step) -/
+example : (runInfo shareLs (compileAll true 1 shareNs [0, 1]) 0, runInfo shareLs (compileAll true 1 shareNs [0, 1]) 1,
+           runInfo shareLs (compileAll true 1 shareNs [1, 0]) 0, runInfo shareLs (compileAll true 1 shareNs [1, 0]) 1) =
+    (some "A|T|Lambda", some "B|T|Lambda", some "A|T|Lambda", some "B|T|Lambda") := by decide
+example : let ns : List NodeD := [⟨0, "A", true⟩, ⟨0, "B", true⟩, ⟨0, "C", false⟩]
+    (runInfo shareLs (compileAll false 1 ns [0, 1, 2]) 0, runInfo shareLs (compileAll false 1 ns [0, 1, 2]) 1,
+     runInfo shareLs (compileAll false 1 ns [2, 1, 0]) 0, runInfo shareLs (compileAll false 1 ns [2, 1, 0]) 2) =
+    (some "A|T|Lambda", some "B|T|Lambda", some "A|T|Lambda", some "A|T|Lambda") := by decide
 
 /-- without the deferred block a failing run never reports its end;
     with a deferred block that does not check `haveOnStart` an early error return has no start -/
